@@ -182,7 +182,12 @@ where
     unsafe fn span(eoi: &mut Self::Cache, range: Range<&Self::Cursor>) -> Self::Span {
         match range.start.0.clone().next() {
             Some((_, s)) => {
-                let end = range.end.2.clone().unwrap_or_else(|| eoi.end());
+                let end = if range.start.1 < range.end.1 {
+                    range.end.2.clone().unwrap_or_else(|| eoi.end())
+                } else {
+                    // Nothing lies between the two cursors: an empty span just before the next token
+                    s.start()
+                };
                 S::new(eoi.context(), s.start()..end)
             }
             None => S::new(eoi.context(), eoi.end()..eoi.end()),
